@@ -66,3 +66,17 @@ CHECKS["C03"] = {
     "assumptions": ["AUTO-SYN interval = 10*masterNumber+51 ms until the own SYN was echoed once, 40 ms afterwards (protocol.h constants)"],
     "runs": [bus("C03", ["--validate-every", 1, "--validate-maxk", 1], ["--validate-every", 6, "--validate-maxk", 2])],
 }
+
+CHECKS["C15"] = {
+    "engine": "busmc", "design_ref": "5/C15",
+    "level": "model_checking",
+    "level_text": "for every set of registered answers (bounded size) and every telegram derived from the answer universe, every execution with "
+                  "<=k environment deviations is judged by a reference answer-table monitor: who is acknowledged, with what, which response, and silence otherwise",
+    "level_note": "a telegram with wrong CRC must be NAK-ed when its received bytes identify a registered answer, may be when only the address is registered; "
+                  "equal-length matches (source-specific vs any) are both accepted",
+    "technique": "deviation-bounded exhaustive exploration (stateless DFS by replay + validated state hashing) of the implementation against a reference monitor",
+    "rule": "scenario = device x answer set (all subsets up to size 2/3 of a 6-answer universe) x telegram (id kept/truncated/extended/mutated, 2 sources) x "
+            "asker variant (clean, bad CRC then repeat, bad twice, NAK of response, NAK twice); all environment choice sequences with <=k deviations",
+    "assumptions": ["for master destinations id length + registered tail length must equal NN (doc comment of setAnswer)"],
+    "runs": [bus("C15", ["--validate-every", 40, "--validate-maxk", 1], ["--validate-every", 200, "--validate-maxk", 2])],
+}
